@@ -40,7 +40,7 @@ SPEC = {
                  "C04_upperBound_none", "C04_concatBytes", "C04_copyBytes", "C04_readAvailable", "C04_copyBatched_loop_is_chunks", "C04_closed_forever", "C04_iterate_backward_is_reverse",
                  "C04_wrapper_trace", "C04_debug_reports", "C04_flush_follows_mutation", "C04_trace_tables_agree", "C04_fault_free_is_model",
                  "C04_flush_error_surfaces", "C04_copy_stops_at_first_error", "C04_private_inv_reachable",
-                 "C04_caller_writes_do_not_reach_the_store", "C04_set_stores_a_copy", "C04_get_returns_a_private_copy", "C04_commit_stores_copies",
+                 "C04_caller_writes_do_not_reach_the_store", "C04_set_stores_a_copy", "C04_get_returns_a_private_copy", "C04_iterate_hands_out_copies", "C04_commit_stores_copies",
                  "C04_calls_mapdb", "C04_calls_flushkv", "C04_calls_debug", "C04_calls_kvstore_utils", "C04_skeleton_types"],
     "trusted_base": [
         "hand-written model Hive/Model/KV.lean of kvstore/mapdb (+ flushkv, debug wrappers), tied to the working tree by "
